@@ -16,3 +16,109 @@ pub(crate) fn wire_types(rng: &mut impl Rng) -> Vec<WireType> {
     };
     vec![wire_type("gossip::Handshake", vec![hs(None), hs(Some("0.13.0")), hs(Some("1.2.3-alpha+build5"))])]
 }
+
+// ---------------------------------------------------------------------------------------------
+// Block fetch queue, validator address book, and the gossip network's connection admission.
+use std::{collections::BTreeMap, sync::Arc};
+
+use zksync_concurrency::{ctx, net, oneshot, sync, time};
+use zksync_consensus_engine::{BlockStoreState, EngineManager};
+use zksync_consensus_roles::validator;
+
+use super::{fetch, Network, ValidatorAddrsWatch};
+use crate::{metrics::MeteredStream, preface, Config};
+
+pub struct VFetchQueue(fetch::Queue);
+/// Completion handle of an accepted fetch request: `success()` reports the block as stored,
+/// dropping it reports a failure.
+pub struct VCompletion(oneshot::Sender<()>);
+
+impl VCompletion {
+    pub fn success(self) {
+        let _ = self.0.send(());
+    }
+}
+
+impl Default for VFetchQueue {
+    fn default() -> Self {
+        Self(fetch::Queue::default())
+    }
+}
+
+impl VFetchQueue {
+    pub async fn request(&self, ctx: &ctx::Ctx, n: validator::BlockNumber) -> ctx::OrCanceled<()> {
+        self.0.request(ctx, fetch::RequestItem::Block(n)).await
+    }
+    pub async fn accept_block(&self, ctx: &ctx::Ctx, available: &mut sync::watch::Receiver<BlockStoreState>) -> ctx::OrCanceled<(validator::BlockNumber, VCompletion)> {
+        let (n, c) = self.0.accept_block(ctx, available).await?;
+        Ok((n, VCompletion(c)))
+    }
+    pub fn current_blocks(&self) -> Vec<u64> {
+        self.0.current_blocks()
+    }
+}
+
+#[derive(Default)]
+pub struct VAddrsWatch(ValidatorAddrsWatch);
+
+impl VAddrsWatch {
+    pub async fn update(&self, validators: &validator::Schedule, data: &[Arc<validator::Signed<validator::NetAddress>>]) -> Result<(), String> {
+        self.0.update(validators, data).await.map_err(|e| format!("{e:#}"))
+    }
+    pub async fn announce(&self, key: &validator::SecretKey, addr: std::net::SocketAddr, timestamp: time::Utc) {
+        self.0.announce(key, addr, timestamp).await
+    }
+    pub fn current(&self) -> BTreeMap<validator::PublicKey, Arc<validator::Signed<validator::NetAddress>>> {
+        self.0.current().into_iter().collect()
+    }
+    /// A subscription that only tells whether subscribers have been notified since the last call.
+    pub fn subscription(&self) -> VAddrsSub {
+        VAddrsSub(Box::new({
+            let mut sub = self.0.subscribe();
+            move || {
+                let c = sub.has_changed().unwrap_or(false);
+                let _ = sub.borrow_and_update();
+                c
+            }
+        }))
+    }
+}
+
+pub struct VAddrsSub(Box<dyn FnMut() -> bool + Send>);
+impl VAddrsSub {
+    pub fn notified(&mut self) -> bool {
+        (self.0)()
+    }
+}
+
+/// The gossip network state (connection pools, config) without the listener loop.
+#[derive(Clone)]
+pub struct VGossip(pub(crate) Arc<Network>);
+
+impl VGossip {
+    pub fn new(cfg: Config, engine_manager: Arc<EngineManager>, epoch: Option<validator::EpochNumber>) -> Self {
+        let (send, _recv) = sync::prunable_mpsc::unpruned_channel();
+        Self(Network::new(cfg, engine_manager, epoch, send))
+    }
+    pub fn inbound_keys(&self) -> Vec<node::PublicKey> {
+        self.0.inbound.current().keys().cloned().collect()
+    }
+    pub fn outbound_keys(&self) -> Vec<node::PublicKey> {
+        self.0.outbound.current().keys().cloned().collect()
+    }
+    /// Accepts one TCP connection and handles it like the node's listener loop does for the
+    /// gossip endpoint: `preface::accept`, then `run_inbound_stream`. Returns when the connection
+    /// ends (or is refused).
+    pub async fn accept_one(&self, ctx: &ctx::Ctx, listener: &mut net::tcp::Listener) -> Result<(), String> {
+        let stream = MeteredStream::accept(ctx, listener).await.map_err(|e| format!("accept: {e:#}"))?;
+        let (stream, endpoint) = preface::accept(ctx, stream).await.map_err(|e| format!("preface: {e:#}"))?;
+        if endpoint != preface::Endpoint::GossipNet {
+            return Err("wrong endpoint".into());
+        }
+        self.0.run_inbound_stream(ctx, stream).await.map_err(|e| format!("{e:#}"))
+    }
+    /// `run_outbound_stream`: dials `addr` expecting `peer`.
+    pub async fn dial(&self, ctx: &ctx::Ctx, peer: &node::PublicKey, addr: std::net::SocketAddr) -> Result<(), String> {
+        self.0.run_outbound_stream(ctx, peer, net::Host(addr.to_string())).await.map_err(|e| format!("{e:#}"))
+    }
+}
